@@ -102,6 +102,7 @@ package csv
 //@   requires ct != nil && tbl(ct.Table) && tab(ct).nColumns <= 1099511627774
 //@   requires [writer-ok] !Wfailed
 //@   assigns heap[tabular.propertyImpl.properties], new(tabular.valueProperty), tab(ct).ErrorContainer.errors_, elemscap(tab(ct).ErrorContainer.errors_), ghost cbErrN, ghost cbErrLog, ghost cbCallN, ghost cbCallSelf, ghost cbCallOwner, ghost stage, ghost fires, ghost stageR, ghost firesR, ghost stageT, ghost stageC, ghost Wn, ghost Wchunk, ghost Wfailed, ghost csvRecN, ghost csvRecStart, ghost csvRecCells
+//@   ensures [exactly-one-render-pass] stageT[tab(ct)] == old(stageT)[tab(ct)] + 2 @C13
 //@   ensures [error-list-grows-only-by-callback-errors] cbErrN >= old(cbErrN) && len(tab(ct).ErrorContainer.errors_) == old(len(tab(ct).ErrorContainer.errors_)) + (cbErrN - old(cbErrN)) @C14,C11
 //@   ensures [table-still-wellformed] tbl(ct.Table) @C09,C14
 //@   ensures [no-columns-refused] tab(ct).nColumns < 1 ==> result != nil && Wn == old(Wn) @C05
